@@ -14,7 +14,7 @@ RULE = ("call sequences over {start(), start(max'), advance(1/3/-2/0/max//4), se
         "{0,1,3,10,50,200} x bar widths 1..40 (bars without maximum too: their offset is double arithmetic, modelled bit for bit) x "
         "formats (built-in per verbosity; custom: one line with %message%, two lines with %message% / %elapsed% / %estimated%, one "
         "line with %elapsed% %remaining% %estimated%, two lines without a maximum) x min-interval {0.1, 0, 0.05} x max-interval "
-        "{1, 0.5} x set_redraw_frequency {-, 1, 2, 5} x ANSI / plain / section (a second section below, width 160 or 30) / quiet "
+        "{1, 0.5} x set_redraw_frequency {-, 1, 2, 5} x progress character {'>', tagged '>'} x ANSI / plain / section (a second section below, width 160 or 30) / quiet "
         "outputs (and quiet+plain, plain section, quiet section): all sequences up to length 3 (quick) / 4 (thorough) for six base "
         "set-ups (ANSI, plain, no maximum with width 7, section with redraw frequency 2 and writes below, verbose custom format "
         "with tagged messages and min-interval 0.05, plain without maximum and min-interval 0) under uniform and mixed timings, "
@@ -22,7 +22,7 @@ RULE = ("call sequences over {start(), start(max'), advance(1/3/-2/0/max//4), se
         "a terminal emulator (after every call on a section output); non-trivial = >= 2 frames; distinct by case")
 TRUSTED = ["virtual clock: time.time replaced by exact fractions, constant during one call; Base/Term.v as the terminal; pastel is "
            "modelled by Model/Markup.v and SectionOutput by Model/Section.v (tied by C11 / C15 and by this run)"]
-ASSUMPTIONS = ["bar / progress characters are the 1-cell defaults; messages are one line of good markup (no line break, every tag "
+ASSUMPTIONS = ["the bar and empty-bar characters are the 1-cell defaults, the progress character is one visible cell ('>', also inside a tag); messages are one line of good markup (no line break, every tag "
                "closed); on a non-section ANSI output every frame is shorter than the terminal width (the line clause); "
                "%estimated% / %remaining% without a maximum raise the documented RuntimeError (model and code agree on it)"]
 
@@ -40,6 +40,7 @@ NEEDS_MAX = ("c2", "c3")
 NAMES = {1: "current", 2: "max", 3: "bar", 4: "percent", 5: "elapsed", 6: "estimated", 7: "message", 8: "remaining"}
 MSGS = ["working", "a longer message here", "<info>ok</info>", "<info>a considerably longer tagged message</info> <b>done</b>",
         "p<fg=red>q</>r", ""]
+PCHARS = ["<info>></info>", "<b>></b>"]        # a progress character carrying a tag: one visible cell
 BELOW = ["below", "<info>two</info>\nlines", "a line of the section below that is longer than thirty cells"]
 
 
@@ -80,7 +81,7 @@ OPS = [[0, None], [0, 5], [1, 1], [1, 3], [1, -2], [2, 7], [3], [4], [5], [1, 0]
 
 def cfg_of(**kw):
     c = {"kind": "ansi", "verb": 0, "max": 10, "bw": 10, "min": 0.1, "fmt": None, "msg": None, "maxs": 1, "rf": None, "w": WIDTH,
-         "below": None}
+         "below": None, "pc": ">"}
     c.update(kw)
     return c
 
@@ -103,7 +104,7 @@ def exhaustive_setups():
         (cfg_of(kind="plain", max=3), a()),
         (cfg_of(max=0, bw=7), a()),
         (cfg_of(kind="section", max=3, bw=5, min=0, rf=2, below="below"), small + [[2, 3], [2, 6], [7, "x"]]),
-        (cfg_of(verb=1, fmt="c1", msg=MSGS[1], min=0.05), small + [[2, 9], [2, 0], [6, MSGS[2]], [6, MSGS[3]]]),
+        (cfg_of(verb=1, fmt="c1", msg=MSGS[1], min=0.05, pc=PCHARS[0]), small + [[2, 9], [2, 0], [6, MSGS[2]], [6, MSGS[3]]]),
         (cfg_of(kind="plain", max=0, bw=15, min=0), small + [[2, 1], [0, 0], [1, 0]]),
     ]
 
@@ -131,7 +132,8 @@ def gen(rng, tier, info):
         cfg = cfg_of(kind=kind, verb=rng.choice([0, 0, 1, 2, 4]), max=mx, bw=rng.randint(1, 40), min=rng.choice([0.1, 0.1, 0, 0.05]),
                      fmt=fmt, msg=rng.choice([None, None] + MSGS), maxs=rng.choice([1, 1, 1, 0.5]), rf=rng.choice([None, None, 1, 2, 5]),
                      w=rng.choice([WIDTH, WIDTH, NARROW]) if sec else WIDTH,
-                     below=rng.choice([None] + BELOW) if kind.startswith("section") or sec else None)
+                     below=rng.choice([None] + BELOW) if kind.startswith("section") or sec else None,
+                     pc=rng.choice([">"] * 5 + PCHARS))
         pool = [list(o) for o in OPS] + [[1, 1]] * 6 + [[1, max(1, mx // 4)]] + [[2, k] for k in set_values(mx)] \
             + [[6, m] for m in rng.sample(MSGS, 2)]
         if sec:
@@ -197,7 +199,8 @@ def wire(c):
     return [int(is_ansi(cfg["kind"])), int(is_quiet(cfg["kind"])), int(is_section(cfg["kind"])), cfg["verb"], cfg["max"], cfg["bw"]] \
         + fr(cfg["min"]) + fr(cfg["maxs"]) + [[] if cfg["rf"] is None else [cfg["rf"]], custom,
                                                [] if cfg["msg"] is None else [S(cfg["msg"])], T0, ops, cfg["w"],
-                                               [w_style(s) for s in default_set()], [] if cfg["below"] is None else [S(cfg["below"])]]
+                                               [w_style(s) for s in default_set()], [] if cfg["below"] is None else [S(cfg["below"])],
+                                               S(cfg["pc"])]
 
 
 def describe(c):
@@ -238,6 +241,8 @@ def run_impl(c):
         init = io.fetch_error()
         bar = ProgressBar(target, cfg["max"], cfg["min"])
         bar.set_bar_width(cfg["bw"])
+        if cfg["pc"] != ">":
+            bar.set_progress_character(cfg["pc"])
         if cfg["maxs"] != 1:
             bar.max_seconds_between_redraws(cfg["maxs"])
         if cfg["rf"] is not None:
@@ -323,7 +328,7 @@ def good_case(c):
     cfg = norm_cfg(c["cfg"])
     msgs = ([cfg["msg"]] if cfg["msg"] is not None else []) + [o[1] for _, o in c["ops"] if o[0] == 6]
     texts = ([cfg["below"]] if cfg["below"] is not None else []) + [o[1] for _, o in c["ops"] if o[0] == 7]
-    return all(good_line(m) for m in msgs) and all(good_line(l) for t in texts for l in t.split("\n"))
+    return all(good_line(m) for m in msgs + [cfg["pc"]]) and all(good_line(l) for t in texts for l in t.split("\n"))
 
 
 def canon_impl(c, o):
@@ -510,7 +515,7 @@ def shrink(c):
     for i in range(len(ops)):
         yield {"cfg": c["cfg"], "ops": ops[:i] + ops[i + 1:]}
     cfg = norm_cfg(c["cfg"])
-    for k, v in (("msg", None), ("fmt", None), ("verb", 0), ("rf", None), ("maxs", 1), ("below", None)):
+    for k, v in (("msg", None), ("fmt", None), ("verb", 0), ("rf", None), ("maxs", 1), ("below", None), ("pc", ">")):
         if cfg[k] != v and not (k == "fmt" and any(o[0] == 6 for _, o in ops)):
             yield {"cfg": dict(cfg, **{k: v}), "ops": ops}
     for i, (dt, o) in enumerate(ops):
